@@ -103,10 +103,19 @@ def request_jobs(tier, prop="C07"):
     return js
 
 
+from props import C20 as _c20
+
+
+def create_jobs(tier):
+    return [{"id": "O7.index-created-after-the-data", "func": "VerifH_C07_IndexAfterData", "conf": {"branchable": 0, "faults": 0, "dag": "", "orders": "all", "shortid": 0, "for": "C07"},
+             "_obligation": "O7", "_covers": ["indexed"], "unwind": 120, "map_order": False}]
+
+
 PROPERTY = {
     "id": "C07",
     "suites": [
         dict(_c09.PROPERTY["suites"][0], name="request", files=["zz_verif_query.go", "zz_verif_c08q.go"], jobs=request_jobs),
+        dict(_c20.SAVE_SUITE, name="indexafterdata", jobs=create_jobs, redirects=_c20.API_REDIR, files=_c20.SAVE_FILES + ["zz_verif_c20api.go", "zz_verif_c07create.go"], common=["intrinsics", "kvmodel", "dagenv", "kvtxn"]),
         dict(_c02.SUITE, name="syncindex", jobs=sync_jobs, patches=SYNC_PATCHES,
              files=["zz_verif_env.go", "zz_verif_merge.go", "zz_verif_c07uniq.go", "zz_verif_c07maint.go"]),
         dict(_c02.SUITE, name="uniquewrite", jobs=uniq_jobs, files=["zz_verif_env.go", "zz_verif_merge.go", "zz_verif_c07uniq.go", "zz_verif_c07maint.go"]),{"name": "indexfetcher", "pkg": "internal/db/fetcher", "files": ["zz_verif_c03.go", "zz_verif_c07.go"],
